@@ -223,6 +223,14 @@ def plain_writes(fn):
     kind 'mutable'  : store to a non-atomic mutable field
          'static'   : store to a namespace-scope / static-member / function-static object of non-sync type
          'constcast': store or non-const call through a const_cast in a const method"""
+    # local non-const references bound to (part of) another object: a write through the reference is a write to that object
+    refs = {}
+    for n in fn.walk():
+        if n['k'] == 'DeclStmt':
+            for d in n.get('decls', []):
+                ty = (d.get('ty') or '').strip()
+                if ty.endswith('&') and not ty.endswith('&&') and d.get('init') and not ty.startswith('const '):
+                    refs[d['did']] = d['init']
     for n in fn.walk():
         lv = written_lvalue(fn, n)
         target = None
@@ -243,6 +251,11 @@ def plain_writes(fn):
         if target is None:
             continue
         root, mems = base_object(fn, target)
+        guard_ = 0
+        while root is not None and root['k'] == 'DeclRefExpr' and root.get('dk') == 'Local' and root.get('did') in refs and guard_ < 3:
+            guard_ += 1
+            root, m2 = base_object(fn, refs[root['did']])
+            mems = mems + m2
         if root is None:
             continue
         tnode = fn.strip(target)
